@@ -16,8 +16,8 @@ def run(tier, replay):
     sd = vlib.scratch_dir("c06")
     try:
         th = tier == "thorough"
-        m = ec.run_profile(chk, binp, "c06", 96 if not th else 1600, sd, thorough=th, extra=["--max-schedules", "120" if not th else "2000"])
-        mt = ec.run_profile(chk, tb, "c06t", 2400 if not th else 40000, sd, env=TSAN, label="c06t")
+        m = ec.run_profile(chk, binp, "c06", 96 if not th else 600, sd, thorough=th, extra=["--max-schedules", "120" if not th else "1000"])
+        mt = ec.run_profile(chk, tb, "c06t", 2400 if not th else 20000, sd, env=TSAN, label="c06t")
         ec.fold(chk, m, KEYS)
         chk.cov["threaded_runs_tsan"] = int(mt.get("runs", 0))
         chk.cov["threaded_builds"] = int(mt.get("builds", 0))
